@@ -36,7 +36,7 @@ Init ==
          /\ tops = {"A"} /\ kidtype = [t \in tops |-> "none"] /\ kid2 = [t \in tops |-> FALSE] /\ keyby = "uid"
          /\ paths = [t \in tops |-> {}] /\ pkgs = [t \in tops |-> {"packages"}] /\ main = "default"
          /\ sec \in [arch : {"bin", "src"}, plats : {{}, {"p1"}, {"p1", "p2"}}, layered : BOOLEAN, imgs : {"none", "one", "two"},
-                     stage2 : {"none", "main", "both"}, media : BOOLEAN, cks : BOOLEAN, ts : {"int", "float"}]
+                     stage2 : {"none", "main", "both"}, media : BOOLEAN, cks : BOOLEAN, ts : {"int", "float", "neg"}]
          /\ (sec.imgs = "two" => "p1" \in sec.plats)
     [] Slice = "discinfo" ->
          /\ tops = {"A"} /\ kidtype = [t \in tops |-> "none"] /\ kid2 = [t \in tops |-> FALSE] /\ keyby = "uid"
